@@ -139,10 +139,10 @@ def classify(fn, info, exp, got):
     feat = info.get('feat', '')
     if kind.startswith('dict-') and mut in ('replace', 'readd') and ek == 'exc:RuntimeError' and gk != 'exc:RuntimeError' and feat != 'mu0':
         return 'dict-iter-keys-changed-undetected'
+    if kind == 'enum-logorder' and (only_first_two_log_entries_swapped(exp, got) or stop_logged_first(exp, got)):
+        return 'enumerate-start-evaluated-before-iterable'
     if kind.startswith('enum-') and feat == 'start-hostile':
         return 'enumerate-start-used-as-is'
-    if kind == 'enum-logorder' and only_first_two_log_entries_swapped(exp, got):
-        return 'enumerate-start-evaluated-before-iterable'
     if kind.startswith('bytes-') and info.get('highbyte') and fn.typing in ('int', 'long', 'short') and feat == 'mu0' or \
             (kind.startswith('bytes-') and info.get('highbyte') and fn.typing in ('int', 'long', 'short')):
         return 'bytes-iter-signed-char-widening'
